@@ -13,6 +13,7 @@ from typing import cast, Tuple
 import parsimonious
 from parsimonious.nodes import Node as _Node
 from . import _error
+from . import _verif_trace
 from . import _serializable
 from . import _expression
 
@@ -31,12 +32,16 @@ def parse(text: str, statement_stream_processor: "StatementStreamProcessor", *, 
         pr.visit(_get_grammar().parse(text))  # type: ignore
         pr.flush_at_end_of_input()
     except _error.Error as ex:
+        if _verif_trace.ENABLED:
+            _verif_trace.emit("convert", layer="parse", cls=type(ex).__name__, line=ex.line, path=str(ex.path), at=pr.current_line_number)
         # Inject error location. If this exception is being propagated from a recursive instance, it already has
         # its error location populated, so nothing will happen here.
         if ex.path is None:  # Otherwise it originates from another (nested) definition; the line would be wrong.
             ex.set_error_location_if_unknown(line=pr.current_line_number)
         raise ex
     except parsimonious.ParseError as ex:
+        if _verif_trace.ENABLED:
+            _verif_trace.emit("convert", layer="parse", cls="ParseError", line=int(ex.line()), path="None", at=0)  # type: ignore
         raise DSDLSyntaxError("Syntax error", line=int(ex.line())) from None  # type: ignore
     except parsimonious.VisitationError as ex:  # pragma: no cover
         # noinspection PyBroadException
@@ -44,6 +49,8 @@ def parse(text: str, statement_stream_processor: "StatementStreamProcessor", *, 
             line = int(ex.original_class.line())
         except Exception:  # pylint: disable=broad-except
             line = pr.current_line_number
+        if _verif_trace.ENABLED:
+            _verif_trace.emit("convert", layer="parse", cls="VisitationError", line=line, path="None", at=pr.current_line_number)
         # Treat as internal because all intentional errors are not wrapped into VisitationError.
         assert line > 0
         raise _error.InternalError(str(ex), line=line) from ex
@@ -153,6 +160,14 @@ class _ParseTreeProcessor(parsimonious.NodeVisitor):
 
     # Misc. helpers
     def _flush_comment(self) -> None:
+        if _verif_trace.ENABLED:
+            _verif_trace.emit(
+                "flush",
+                line=self._current_line_number,
+                header=self._comment_is_header,
+                comment=self._comment,
+                attr_line=self._attribute_line_number,
+            )
         if self._comment_is_header:
             self._statement_stream_processor.on_header_comment(self._comment)
         else:
@@ -188,6 +203,8 @@ class _ParseTreeProcessor(parsimonious.NodeVisitor):
 
     def visit_end_of_line(self, _n: _Node, _c: _Children) -> None:
         self._current_line_number += 1
+        if _verif_trace.ENABLED:
+            _verif_trace.emit("eol", line=self._current_line_number)
 
     # ================================================== Statements ==================================================
 
@@ -206,6 +223,8 @@ class _ParseTreeProcessor(parsimonious.NodeVisitor):
         assert isinstance(constant_type, _serializable.SerializableType) and isinstance(name, str) and name
         assert isinstance(exp, _expression.Any)
         self._flush_comment()
+        if _verif_trace.ENABLED:
+            _verif_trace.emit("stmt", kind="const", line=self._current_line_number, name=name)
         self._statement_stream_processor.on_constant(constant_type, name, exp)
         self._attribute_line_number = self._current_line_number
 
@@ -213,6 +232,8 @@ class _ParseTreeProcessor(parsimonious.NodeVisitor):
         field_type, _space, name = children
         assert isinstance(field_type, _serializable.SerializableType) and isinstance(name, str) and name
         self._flush_comment()
+        if _verif_trace.ENABLED:
+            _verif_trace.emit("stmt", kind="field", line=self._current_line_number, name=name)
         self._statement_stream_processor.on_field(field_type, name)
         self._attribute_line_number = self._current_line_number
 
@@ -220,18 +241,24 @@ class _ParseTreeProcessor(parsimonious.NodeVisitor):
         void_type = children[0]
         assert isinstance(void_type, _serializable.VoidType)
         self._flush_comment()
+        if _verif_trace.ENABLED:
+            _verif_trace.emit("stmt", kind="pad", line=self._current_line_number, name="")
         self._statement_stream_processor.on_padding_field(void_type)
         self._attribute_line_number = self._current_line_number
 
     def visit_statement_service_response_marker(self, _n: _Node, _c: _Children) -> None:
         self._flush_comment()
         self._comment_is_header = True  # Allow response header comment
+        if _verif_trace.ENABLED:
+            _verif_trace.emit("stmt", kind="marker", line=self._current_line_number, name="")
         self._statement_stream_processor.on_service_response_marker()
 
     def visit_statement_directive_with_expression(self, _n: _Node, children: _Children) -> None:
         _at, name, _space, exp = children
         assert isinstance(name, str) and name and isinstance(exp, _expression.Any)
         self._flush_comment()
+        if _verif_trace.ENABLED:
+            _verif_trace.emit("stmt", kind="directive", line=self._current_line_number, name=name)
         self._statement_stream_processor.on_directive(
             line_number=self.current_line_number, directive_name=name, associated_expression_value=exp
         )
@@ -240,6 +267,8 @@ class _ParseTreeProcessor(parsimonious.NodeVisitor):
         _at, name = children
         assert isinstance(name, str) and name
         self._flush_comment()
+        if _verif_trace.ENABLED:
+            _verif_trace.emit("stmt", kind="directive", line=self._current_line_number, name=name)
         self._statement_stream_processor.on_directive(
             line_number=self.current_line_number, directive_name=name, associated_expression_value=None
         )
